@@ -3,6 +3,7 @@
   what sits at output paths.
   Model: GrogModel/Exec.lean, GrogModel/Build.lean.
 -/
+import GrogModel.Props.C15
 import GrogModel.Lemmas.BuildReexec
 import GrogModel.DirVal
 set_option linter.unusedSectionVars false
@@ -192,6 +193,16 @@ example (P : Params Nat) (hfx : P.fx.syncTaint = true ∧ P.fx.gateChecks = true
   ⟨⟨List.nodup_nil, fun l hl => by simp at hl, fun l t h => by simp at h, fun l hl => by simp at hl,
     fun pre l suf h => by simp at h, fun l hl => by simp at hl, fun l hl => by simp at hl, fun l hl => by simp at hl⟩,
    ⟨rfl, rfl, hfx.1, hfx.2, fun l hl => by simp at hl⟩⟩
+
+/-- the same with a non-empty order (one target with an output; `Compose.ex_noop_rebuild` is a two-target instance of
+    the conclusion for the real key) -/
+example (P : Params Nat) (hfx : P.fx.syncTaint = true ∧ P.fx.gateChecks = true) :
+    WF C15.exDefs [[1]] ∧ Plain P ⟨true, false⟩ C15.exDefs [[1]] :=
+  ⟨C15.exBuildOK.wf, ⟨rfl, rfl, hfx.1, hfx.2, fun l hl t h => by
+    simp only [C15.exDefs] at h
+    split at h
+    · simp only [Option.some.injEq] at h; subst h; rfl
+    · cases h⟩⟩
 
 /-- **globout_witness** (F-globout, open). If a resolved input of `t` is a declared output of its dependency
     (excluded by `WF.inputsOff`), building the dependency changes `t`'s key-state although no source changed: under
